@@ -167,3 +167,19 @@ pub fn lowrank_update_from_grad<M: Math>(
 ) {
     mm.update_from_grad(math, pos, grad, 1f64, (1e-20, 1e20));
 }
+
+// ---- adaptation schedule probe --------------------------------------------------------------
+
+/// Snapshot of `GlobalStrategy`'s schedule state (see `GlobalStrategy::verif_probe`).
+#[derive(Debug, Clone, Copy, PartialEq, Eq)]
+pub struct ScheduleProbe {
+    pub foreground_count: u64,
+    pub background_count: u64,
+    pub current_window_size: u64,
+    pub early_end: u64,
+    pub final_step_size_window: u64,
+    pub last_update: u64,
+    pub has_initial_mass_matrix: bool,
+}
+
+pub use crate::mclmc::MclmcChain as VerifMclmcChain;
